@@ -28,23 +28,31 @@ pub struct Case {
     pub cov: u8,
     /// number of such lookups in the LookupList (each with its own glyph block)
     pub lookups: u8,
+    /// bit i set: lookup i is AUTHORED as an extension lookup (`PositionLookup::Extension`); such a
+    /// lookup is not split by the packer (too large => PackingFailed is the acceptable answer)
+    pub ext: u8,
 }
 
 impl Case {
     pub fn to_json(&self) -> Value {
-        json!({"family":"public","kind":self.kind,"k":self.k,"m":self.m,"fmt":self.fmt,"cov":self.cov,"lookups":self.lookups})
+        json!({"family":"public","kind":self.kind,"k":self.k,"m":self.m,"fmt":self.fmt,"cov":self.cov,"lookups":self.lookups,"ext":self.ext})
     }
     pub fn from_json(v: &Value) -> Case {
         let g = |k: &str| v[k].as_u64().unwrap_or(0);
-        Case { kind: g("kind") as u8, k: g("k") as u32, m: g("m") as u32, fmt: g("fmt") as u8, cov: g("cov") as u8, lookups: g("lookups") as u8 }
+        Case { kind: g("kind") as u8, k: g("k") as u32, m: g("m") as u32, fmt: g("fmt") as u8, cov: g("cov") as u8, lookups: g("lookups") as u8, ext: g("ext") as u8 }
     }
     fn class(&self) -> String {
         format!(
-            "{} fmt={} cov={} lookups={}",
+            "{} fmt={} cov={} lookups={} authored-extension={}",
             ["PairPos1", "PairPos2", "MarkBasePos"][self.kind as usize],
             self.fmt,
             self.cov,
-            self.lookups
+            self.lookups,
+            match self.ext.count_ones() {
+                0 => "none",
+                n if n as u8 == self.lookups => "all",
+                _ => "some",
+            }
         )
     }
 }
@@ -166,6 +174,14 @@ fn with_neighbours(gs: impl Iterator<Item = u16>) -> Vec<u16> {
     s.into_iter().collect()
 }
 
+fn pair_lookup(c: &Case, l: u32, sub: w::PairPos) -> w::PositionLookup {
+    if c.ext & (1 << l) != 0 {
+        w::PositionLookup::Extension(wl::Lookup::new(wl::LookupFlag::empty(), vec![w::ExtensionSubtable::Pair(w::ExtensionPosFormat1::new(2, sub))]))
+    } else {
+        w::PositionLookup::Pair(wl::Lookup::new(wl::LookupFlag::empty(), vec![sub]))
+    }
+}
+
 pub fn build(c: &Case) -> (w::Gpos, Vec<Expect>) {
     let mut lookups = vec![];
     let mut expects = vec![];
@@ -186,7 +202,7 @@ pub fn build(c: &Case) -> (w::Gpos, Vec<Expect>) {
                     sets.push(w::PairSet::new(recs));
                 }
                 let cov: wl::CoverageTable = firsts.iter().map(|g| GlyphId16::new(*g)).collect();
-                lookups.push(w::PositionLookup::Pair(wl::Lookup::new(wl::LookupFlag::empty(), vec![w::PairPos::format_1(cov, sets)])));
+                lookups.push(pair_lookup(c, l, w::PairPos::format_1(cov, sets)));
                 expects.push(Expect::Pair {
                     rules,
                     universe1: with_neighbours(firsts.iter().copied()),
@@ -223,7 +239,7 @@ pub fn build(c: &Case) -> (w::Gpos, Vec<Expect>) {
                     }
                     rows.push(w::Class1Record::new(row));
                 }
-                lookups.push(w::PositionLookup::Pair(wl::Lookup::new(wl::LookupFlag::empty(), vec![w::PairPos::format_2(cov, cd1, cd2, rows)])));
+                lookups.push(pair_lookup(c, l, w::PairPos::format_2(cov, cd1, cd2, rows)));
                 expects.push(Expect::Pair { rules, universe1: with_neighbours(firsts.iter().copied()), universe2 });
             }
             _ => {
@@ -259,7 +275,11 @@ pub fn build(c: &Case) -> (w::Gpos, Vec<Expect>) {
                 let mcov: wl::CoverageTable = marks.iter().map(|g| GlyphId16::new(*g)).collect();
                 let bcov: wl::CoverageTable = bases.iter().map(|g| GlyphId16::new(*g)).collect();
                 let sub = w::MarkBasePosFormat1::new(mcov, bcov, w::MarkArray::new(mrecs), w::BaseArray::new(brecs));
-                lookups.push(w::PositionLookup::MarkToBase(wl::Lookup::new(wl::LookupFlag::empty(), vec![sub])));
+                lookups.push(if c.ext & (1 << l) != 0 {
+                    w::PositionLookup::Extension(wl::Lookup::new(wl::LookupFlag::empty(), vec![w::ExtensionSubtable::MarkToBase(w::ExtensionPosFormat1::new(4, sub))]))
+                } else {
+                    w::PositionLookup::MarkToBase(wl::Lookup::new(wl::LookupFlag::empty(), vec![sub]))
+                });
                 expects.push(Expect::MarkBase {
                     marks: emarks,
                     bases: ebases,
@@ -423,7 +443,7 @@ pub fn cases(tier: Tier) -> Vec<Case> {
                     if lookups == 3 && k > 130 {
                         continue;
                     }
-                    out.push(Case { kind: 0, k, m: 273, fmt, cov, lookups });
+                    out.push(Case { kind: 0, k, m: 273, fmt, cov, lookups, ext: 0 });
                 }
             }
         }
@@ -446,7 +466,7 @@ pub fn cases(tier: Tier) -> Vec<Case> {
                     if lookups == 2 && k > 400 {
                         continue;
                     }
-                    out.push(Case { kind: 1, k, m: 51, fmt, cov, lookups });
+                    out.push(Case { kind: 1, k, m: 51, fmt, cov, lookups, ext: 0 });
                 }
             }
         }
@@ -468,9 +488,27 @@ pub fn cases(tier: Tier) -> Vec<Case> {
                     if lookups == 2 && (quick && k != 150 || k > 200) {
                         continue;
                     }
-                    out.push(Case { kind: 2, k, m, fmt, cov, lookups });
+                    out.push(Case { kind: 2, k, m, fmt, cov, lookups, ext: 0 });
                 }
             }
+        }
+    }
+    // authored extension lookups: none (above) / one in every position / all, for the multi-lookup
+    // cases and for the smallest single-lookup case of each family
+    let base = out.clone();
+    for c in base {
+        let small_single = c.lookups == 1 && c.k <= 4;
+        if !(c.lookups > 1 || small_single) || (quick && (c.cov != 0 || !(c.fmt == 0 || c.fmt == 2 || c.fmt == 4))) {
+            continue;
+        }
+        let mut masks: Vec<u8> = (0..c.lookups).map(|i| 1u8 << i).collect();
+        if c.lookups > 1 {
+            masks.push((1u8 << c.lookups) - 1);
+        }
+        for ext in masks {
+            let mut c2 = c.clone();
+            c2.ext = ext;
+            out.push(c2);
         }
     }
     out
